@@ -17,7 +17,6 @@ DECIDING_REQUIRED = ('payloads_emitted', 'payloads_delivered', 'runs_with_concur
                      'runs_with_fragmentation', 'fragmented_frames_seen')
 MAXN = 0x7FFFFFFF
 BUDGET_S = {'quick': 100, 'thorough': 1800}
-CASE_WALL_LIMIT = {'quick': 60, 'thorough': 180}
 
 
 def plan(tier, seed):
